@@ -48,6 +48,7 @@ type c17life struct {
 	open       []*c17req
 	lastWireID uint32 // stream ID of the last HEADERS frame seen on the wire
 	lastID     uint32 // last stream ID assigned to a request
+	lowered    bool   // the server lowered its limit at some point (streams opened under the old limit may exceed the new one)
 }
 
 const c17addr = "example.com:443"
@@ -92,7 +93,35 @@ func (l *c17life) check() {
 	if l.inUse()+resets < l.m {
 		vfAssert(can, "usable connection below its limit takes new requests")
 	}
-	vfAssert(len(cc.streams) <= l.m, "open streams <= MAX_CONCURRENT_STREAMS")
+	vfAssert(l.lowered || len(cc.streams) <= l.m, "open streams <= MAX_CONCURRENT_STREAMS")
+}
+
+// settings delivers a later SETTINGS frame from the server. The ledger's limit l.m changes only when the frame carries
+// MAX_CONCURRENT_STREAMS (RFC 9113 §6.5.3: parameters not mentioned keep their value).
+func (l *c17life) settings() {
+	var ss []Setting
+	kind := 0
+	if vfTier() > 0 {
+		kind = vfChoice("settings-kind", 3)
+	}
+	switch kind {
+	case 0: // another parameter only (arbitrary valid value)
+		v := vfU32("initialWindowSize")
+		vfAssume(v <= 1<<31-1)
+		ss = append(ss, Setting{SettingInitialWindowSize, v})
+		vfReach("settings-without-limit")
+	case 1: // empty frame
+	case 2: // the limit changes (raised or lowered, possibly below the current count)
+		m := vfLen("newlimit", 1, 3)
+		if m < l.m {
+			l.lowered = true
+		}
+		l.m = m
+		ss = append(ss, Setting{SettingMaxConcurrentStreams, uint32(m)})
+	}
+	if err := l.h.rl.processSettingsNoWrite(h2cSettingsFrame(ss...)); err != nil {
+		vfAssert(false, "later SETTINGS accepted")
+	}
 }
 
 func c17lifeRequest() *http.Request {
@@ -213,7 +242,7 @@ func VerifC17_lifecycle() {
 	}
 	K := 3 + vfTier()
 	for step := 0; step < K; step++ {
-		switch vfChoice("op", 5) {
+		switch vfChoice("op", 6) {
 		case 0: // somebody reserves a slot for later use (net/http ClientConn API, or a pool caller that has not started yet)
 			atLimit := l.inUse() >= l.m
 			if cc.ReserveNewRequest() {
@@ -236,6 +265,8 @@ func VerifC17_lifecycle() {
 			vfAssume(resets > 0)
 			vfReach("ping-ack")
 			h.rl.processPing(&PingFrame{FrameHeader: FrameHeader{valid: true, Type: FramePing, Flags: FlagPingAck}})
+		case 5: // a later SETTINGS frame from the server
+			l.settings()
 		}
 		l.check()
 	}
